@@ -57,10 +57,14 @@ class OraclePolicy:
 
 
 class Gen:
-    def __init__(self, rng: random.Random):
+    def __init__(self, rng: random.Random, span_snapshots: bool = False):
         self.rng = rng
         self.uid = 0
         self.pol_log: list = []
+        #: opt-in (C09): also generate in-progress snapshots that are NOT prefixes of the live buffer (an invocation that
+        #: outlived a completed collection: the buffer was deleted and refilled since its snapshot was taken), and aim
+        #: more collect results at buffers whose snapshot is stale
+        self.span_snapshots = span_snapshots
 
     def fresh(self) -> int:
         self.uid += 1
@@ -179,6 +183,13 @@ class Gen:
                 else:
                     snap_c = {b: list(v)[: rng.randint(0, len(v))] for b, v in coll.items() if rng.random() < 0.8}
                     snap_w = [R.StepWorkerWaiter(**vars(w)) for w in waiters if rng.random() < 0.6]
+                if self.span_snapshots and rng.random() < 0.4:
+                    # a snapshot from an EARLIER round: other events (of the finished round), possibly followed by a
+                    # part of the live buffer, of any length (shorter = stale for the reducer, equal/longer = not)
+                    for b, v in coll.items():
+                        if rng.random() < 0.7:
+                            old = [self.event(rng.choice([5, 6, 7])) for _ in range(rng.randint(1, 2))]
+                            snap_c[b] = (old + list(v)[len(old): rng.randint(0, len(v))]) if rng.random() < 0.5 else old
                 evt = self.step_failed_event(list(cfg.steps)) if (nm in hn) else self.event(rng.choice(acc_ids) if acc_ids else 5)
                 inprog.append(InProgressState(
                     event=evt, worker_id=wid,
@@ -198,12 +209,20 @@ class Gen:
         wids = [w.waiter_id for w in ws.collected_waiters] if ws else []
         out: list = []
         mode = rng.random()
+        if self.span_snapshots and ws is not None and ip is not None and rng.random() < 0.5 and any(
+                len(v) > len(ip.shared_state.collected_events.get(b, [])) for b, v in ws.collected_events.items()):
+            mode = 0.55  # the invocation's snapshot is stale: let it report a collect result
         if mode < 0.30:
             out.append(R.StepWorkerResult(result=rng.choice([None, self.event(rng.choice([5, 6, 7, 2, 13, 3])), self.event(1)])))
         elif mode < 0.50:
             out.append(R.StepWorkerFailed(exception=ET.Boom(f"e{rng.randint(1, 5)}"), failed_at=float(rng.choice([1000, 1003, 1010]))))
         elif mode < 0.65:
-            out.append(R.AddCollectedEvent(event_id=rng.choice(["default", "b01", "b02"]), event=self.event(rng.choice([5, 6, 7]))))
+            bid = rng.choice(["default", "b01", "b02"])
+            if self.span_snapshots and ws is not None and ip is not None and rng.random() < 0.6:
+                stale_b = [b for b, v in ws.collected_events.items() if len(v) > len(ip.shared_state.collected_events.get(b, []))]
+                if stale_b:
+                    bid = rng.choice(stale_b)
+            out.append(R.AddCollectedEvent(event_id=bid, event=self.event(rng.choice([5, 6, 7]))))
             out.append(R.StepWorkerResult(result=None))
         elif mode < 0.75:
             out.append(R.DeleteCollectedEvent(event_id=rng.choice(["default", "b01"])))
@@ -325,6 +344,7 @@ def run_pair(g: Gen, illformed: bool) -> tuple[list[str], list[str], dict]:
     outs.append(out)
     info["tick"] = type(tk).__name__
     info["out"] = "crash" if out == "crash" else "ok"
+    info["pair"] = (st, tk, None if out == "crash" else st2, [] if out == "crash" else cmds)
     if isinstance(tk, T.TickStepResult):
         info["res"] = [type(r).__name__ for r in tk.result]
         bufs = [r.event_id for r in tk.result if isinstance(r, R.AddCollectedEvent)]
